@@ -67,6 +67,8 @@ def strategy(tier):
                                   "eof_newline": st.booleans(), "bom": st.sampled_from([False, False, False, True]),
                                   # doccomment-shaped bracket comments on one line, not followed by a command
                                   "oneline": st.sampled_from([0, 0, 1, 2]),
+                                  # the last documented invocation occurs a second time, word for word
+                                  "repeat_last": st.sampled_from([False, False, True]),
                                   "arity_case": st.sampled_from(["lower", "UPPER", "Title"]),
                                   "arity": G.weighted((3, st.just([])), (1, st.lists(st.tuples(st.sampled_from(["set", "option", "add_test", "ct_add_test", "ct_add_section",
                                                                                "cpp_class", "cpp_member", "cpp_attr", "cpp_constructor"]),
@@ -87,6 +89,10 @@ def build(case):
         it = dict(it)
         it["args"] = _fix_at(it["args"])
         items.append(it)
+    if case.get("repeat_last"):
+        docd = [x for x in items if x.get("doc")]
+        if docd:
+            items.append(dict(docd[-1]))
     module = {"moddoc": None, "items": items}
     prelude = "".join(f"function({c})\nendfunction()\n" for c in all_cmds())
     body = R.render(module, case["layout"], eof_newline=True)
